@@ -680,8 +680,8 @@ class __Class(_pre.Pregex):
         :param str classes: One or more string character class patterns.
         '''
         range_pattern = \
-            r"(?:\\(?:\[|\]|\^|\$|\-|\/|[a-z]|\\)|[^\[\]\^\$\-\/\\])" + \
-            r"-(?:\\(?:\[|\]|\^|\$|\-|\/|[a-z]|\\)|[^\[\]\^\$\-\/\\])"
+            r"(?:\\(?:\[|\]|\^|\$|\-|\/|[a-z]|\\)|[^\[\]\^\-\/\\])" + \
+            r"-(?:\\(?:\[|\]|\^|\$|\-|\/|[a-z]|\\)|[^\[\]\^\-\/\\])"
         ranges = set(_re.findall(range_pattern, classes))
         classes = _re.sub(pattern=range_pattern, repl="", string=classes)
         return (ranges, set(_re.findall(r"\\?.", classes, flags=_re.DOTALL)))
